@@ -3,7 +3,7 @@
    ExtrOcamlString (ascii -> char, string -> char list).  No Extract Constant of our own. *)
 From Coq Require Import Extraction ExtrOcamlBasic ExtrOcamlString.
 From Ucg Require Import base.Bytes data.Val prec.Climb env.Collector env.Out data.Json data.MapJson data.B64 path.Path sem.Ast sem.Sem sem.FloatInst shell.Shell lex.Lex_Types lex.Vocab lex.Lex vm.Ops vm.Translate vm.Vm vm.Compile_Rel vm.Compile_Correct.
-From Ucg Require Import env.Import env.Batch lsp.Docs shape.Shape data.Xml.
+From Ucg Require Import env.Import env.Batch lsp.Docs shape.Shape data.Xml print.Print.
 From UcgGen Require Import PrecTable DocPrecTable.
 
 Extraction Language OCaml.
@@ -67,3 +67,6 @@ Extraction "model_shape.ml" x_builds x_build_accepts x_build_accepts_prog x_buil
 (* C12: the xml converter, the EventWriter and an independent XML 1.0 reader *)
 Extraction "model_xml.ml" to_xml_r to_xml xml_emit_r xml_emit xml_output xml_parse tree_of_doc tree_of_events
   events_of_tree as_written xml_tree_wf valid_names strip_ws_doc.
+
+(* C05: the AST printer (byte-exact for comment-free programs), the comment map of the tokenizer and the comment scheduler *)
+Extraction "model_print.ml" pp_stmts f64_display float_text render_with_comments run_render comment_line is_bareword comment_map_of.
